@@ -73,12 +73,60 @@ func muxRoutes(p *Prog) []muxRoute {
 			h := stripConv(args[1], false)
 			if f, _ := closureOf(h); nil != f {
 				/* Bound method value: (*Server).inputHandler$bound. */
-				rt.Handler = unbound(p, f)
+				rt.Handler = throughMiddleware(p, unbound(p, f))
 			}
 			out = append(out, rt)
 		})
 	}
 	return out
+}
+
+// servedBy: the function behind the http.Handler value h, when it is a
+// function value (http.HandlerFunc(f), a bound method, a literal); nil else.
+func servedBy(p *Prog, h ssa.Value) *ssa.Function {
+	h = resolveFree(stripConv(resolveCell(resolveFree(h)), false))
+	if f, _ := closureOf(h); nil != f {
+		return unbound(p, f)
+	}
+	return nil
+}
+
+// serveHTTPCalls: the calls of ServeHTTP in f's own frame, with the handler
+// value and the writer each is given.
+func serveHTTPCalls(f *ssa.Function) (calls []ssa.Instruction, handlers, writers []ssa.Value) {
+	eachInstr(f, func(i ssa.Instruction) {
+		cc := callCommon(i)
+		if nil == cc {
+			return
+		}
+		switch {
+		case cc.IsInvoke() && "ServeHTTP" == cc.Method.Name() && 2 == len(cc.Args):
+			calls, handlers, writers = append(calls, i), append(handlers, cc.Value), append(writers, cc.Args[0])
+		case !cc.IsInvoke() && strings.HasSuffix(calleeName(cc), ").ServeHTTP") && 3 == len(cc.Args):
+			calls, handlers, writers = append(calls, i), append(handlers, cc.Args[0]), append(writers, cc.Args[1])
+		}
+	})
+	return
+}
+
+// throughMiddleware: a handler which does its own thing around exactly one
+// next.ServeHTTP(…), next being a function known here (a metering or logging
+// wrapper around one route), stands for that function: the route's rules are
+// about what serves the request.  What the wrapper does to the writer is the
+// transport-writer rule's business.
+func throughMiddleware(p *Prog, f *ssa.Function) *ssa.Function {
+	for depth := 0; depth < 3 && nil != f; depth++ {
+		calls, hs, _ := serveHTTPCalls(f)
+		if 1 != len(calls) {
+			return f
+		}
+		g := servedBy(p, hs[0])
+		if nil == g || g == f || nil == g.Blocks {
+			return f
+		}
+		f = g
+	}
+	return f
 }
 
 // unbound maps a bound-method or thunk wrapper to the method it wraps.
